@@ -185,7 +185,10 @@ func createBooleanCandidate(owner *CandidateNode, value bool) *CandidateNode {
 	return noob
 }
 
+// createTraversalTree builds the traversal of a path that is data (the path of a node, a path array given to
+// setpath / delpaths, a key read from a properties or TOML file): its elements name keys, they are not patterns.
 func createTraversalTree(path []interface{}, traversePrefs traversePreferences, targetKey bool) *ExpressionNode {
+	traversePrefs.ExactKeyMatch = true
 	if len(path) == 0 {
 		return &ExpressionNode{Operation: &Operation{OperationType: selfReferenceOpType}}
 	} else if len(path) == 1 {
